@@ -75,7 +75,7 @@ def rule_mangle(repo: Repo) -> RuleResult:
                         deleted.add("<whitespace>")
     harmful = sorted(deleted & {"-", "_", "<whitespace>", " "})
     if harmful:
-        r.fail(Finding("C13.mangle", f, "symbol-name:deletes-separators", f"the symbol name is the fluent text with {sorted(deleted)} deleted; deleting {harmful} "
+        r.fail(Finding("C13.mangle", f, "symbol-name:deletes:" + "/".join(harmful), f"the symbol name is the fluent text with {sorted(deleted)} deleted; deleting {harmful} "
                        f"merges different fluents: (dist a bc) and (dist ab c) become the same symbol"))
     else:
         r.ok({"deleted_characters": sorted(deleted)})
@@ -143,8 +143,15 @@ def rule_sides(repo: Repo) -> RuleResult:
             fv = [v for v in ret.value.values if isinstance(v, ast.FormattedValue)]
             if len(fv) == 3:
                 t0, t1, t2 = (p.trace(v.value) for v in fv)
-                ok = all(x == ("param:inequality_operator",) for x in t0) and any("unpack:0" in x for x in t1) and not any("unpack:1" in x and "arg0:expand" in x for x in t1 if "unpack:0" not in x and False) \
-                    and any("unpack:1" in x for x in t2)
+                def side(paths, k):
+                    want = ("call:split", f"unpack:{k}", "arg0:transform_expression", "unpack:0")
+                    for x in paths:
+                        if x[0] == "param:complex_numeric_expression" and "arg0:convert_expr_to_pddl" in x:
+                            for i in range(len(x) - len(want) + 1):
+                                if x[i:i + len(want)] == want:
+                                    return True
+                    return False
+                ok = all(x == ("param:inequality_operator",) for x in t0) and side(t1, 0) and not side(t1, 1) and side(t2, 1) and not side(t2, 0)
                 lits = "".join(v.value for v in ret.value.values if isinstance(v, ast.Constant))
                 ok = ok and lits.strip().startswith("(") and lits.strip().endswith(")")
     if ok:
